@@ -4,6 +4,7 @@ Run one scenario on a fresh SimLoop and collect everything the oracles need.
 
 import asyncio
 import contextlib
+import warnings
 import random
 
 from . import clock
@@ -34,6 +35,22 @@ class Run:
                  'drain_idle', 'loop_stats', 'choices', 'seq_returned',
                  'seq_shutdown', 'seq_drained', 'harness_error', 'events',
                  'polls', 'instants', 'post2', 'seq_rerun')
+
+
+@contextlib.contextmanager
+def _strict_warnings(knobs):
+    """environment fault: the application runs with warnings turned into
+    errors (python -W error, pytest filterwarnings=error) - here only for
+    warnings issued from the package's own modules, so that nothing asyncio
+    or the simulator may emit is involved. The package emits none on the
+    unchanged tree; one added on a path the run goes through must not change
+    what the run does."""
+    if not knobs.get("strict_warnings"):
+        yield
+        return
+    with warnings.catch_warnings():
+        warnings.filterwarnings('error', module=r'asynciojobs(\..*)?$')
+        yield
 
 
 def default_knobs(seed=0):
@@ -97,7 +114,7 @@ def run_spec(spec, knobs, choices=None, poll=True, drain_virtual=40.0,
     run.seq_returned = run.seq_shutdown = run.seq_drained = None
     run.seq_rerun = None
     try:
-        with contextlib.redirect_stdout(_NULL):
+        with contextlib.redirect_stdout(_NULL), _strict_warnings(knobs):
             top = S.build(spec, ctx)
             run.top = top
             if poll:
